@@ -48,7 +48,7 @@ SPEC = {
                    "PdModel/Props/C15.lean", "PdModel/Spec/C15.lean", "PdModel/Driver/GcSafePoint.lean"],
     "gen": {
         "quick": {"args": ["-n", "40", "-len", "28", "-streams", "4", "-maxsec", "40"], "streams": 4},
-        "thorough": {"args": ["-n", "900", "-len", "40", "-streams", "16", "-maxsec", "500"], "streams": 16},
+        "thorough": {"args": ["-n", "550", "-len", "40", "-streams", "16", "-maxsec", "320"], "streams": 16},
     },
     "search": {"args": ["-n", "150", "-len", "36", "-streams", "8", "-maxsec", "60"], "streams": 8},
     "nontrivial": nontrivial,
